@@ -337,3 +337,23 @@ Theorem C13_for_join_programs_agree_with_the_source_semantics : forall P fuel fw
   (frag_program P = false /\ exists c, Sem.run_main fuel P args = Sem.RunStuck c /\ In c stuck_allowed).
 Proof. exact join_covered_agrees. Qed.
 Print Assumptions C13_for_join_programs_agree_with_the_source_semantics.
+
+(* ... down to the evaluated CIRCUIT (Compile/EndToEndJoin.v): [certified_join] = join_covered &&
+   sem_fuel_enough && one successful run of the bit-level semantics on the all-zero arguments (by
+   the one-witness theorem that is enough for definedness on every input); all Booleans evaluated
+   per program.  For such a program the circuit the model of compile.rs returns validates, has the
+   parameters' party sizes, evaluates on every input, and for canonical arguments with strictly
+   ascending keys its output reads as the value / panic of Sem.v. *)
+From GV Require Import Circuit.Ssa Compile.Lower Compile.EndToEnd Compile.EndToEndJoin.
+
+Theorem C13_for_join_programs_end_to_end : forall fuel dedup P c,
+  certified_join fuel P = true -> within_gate_bound fuel dedup P = true ->
+  lower_program_with fuel dedup P = Ok (LCircuit c) ->
+  ssa_validate c = None /\ input_gates c = fst (main_wiring P) /\
+  forall ins inp,
+    load_inputs (input_gates c) ins = Some inp ->
+    canonical_main_args P (main_args P inp) = true ->
+    join_inputs_sorted P (main_args P inp) ->
+    exists out, ssa_eval c ins = Some out /\ output_spec fuel P (main_args P inp) out.
+Proof. exact end_to_end_join. Qed.
+Print Assumptions C13_for_join_programs_end_to_end.
